@@ -116,7 +116,15 @@ def rule_dropna(ctx):
     oracle = lambda a, st: (False if (a[0] == 'cmp' and a[1] == '==' and a[2] == ('attr', SELF, 'ndim') and a[3] == const(1)) else None)
     ev = run(ctx, fi, oracle=oracle)
     seen_none, seen_given = False, False
-    for p in ret_paths(ev):
+    from ..rules import alternatives
+
+    class _VP(object):          # a returning path with one resolution of the conditional expressions in its value
+        def __init__(self, p, value, extra):
+            self.value, self.guards, self.node, self._p = value, tuple(p.guards) + tuple(extra), p.node, p
+
+        def calls(self, name=None):
+            return self._p.calls(name)
+    for p in [_VP(p, v, extra) for p in ret_paths(ev) for v, extra in alternatives(p.value)]:
         v = p.value
         if not (v[0] == 'call' and v[1] == ('attr', SELF, 'compress_axis') and T.kw(v, 'axis') == idx and len(v[2]) == 1):
             ctx.violated('R3', fi, 'return ' + T.show(v)[:140], 'dropna must select whole slices with compress_axis(mask, axis=idx) along the resolved axis', node=p.node)
@@ -224,6 +232,18 @@ def rule_fill(ctx):
                            (x[0] == 'call' and T.dotted(x[1]) == 'np.logical_or' and any(is_member(y) for y in x[2]))
                            for y in alts for x in T.subterms(y))
                 kinds['iterable'] = bool(seeded and member and ored)
+                # the same accumulation written as functools.reduce(lambda acc, v: acc | _matches(a, v), value, <all-False mask of a's shape>)
+                for y in alts:
+                    if y[0] == 'call' and T.dotted(y[1]) in ('functools.reduce', 'reduce') and len(y[2]) == 3 and y[2][1] == VAL and y[2][0][0] == 'lambda' and y[2][0][1] == 2:
+                        body, seed = y[2][0][2], y[2][2]
+                        seed_ok = seed[0] == 'call' and T.dotted(seed[1]) in ('np.zeros', 'np.zeros_like', 'np.full', 'np.full_like') and T.contains(seed, A)
+                        bvs = [x for x in T.subterms(body) if x[0] == 'bv']
+                        acc = [x for x in bvs if x[2] == 0]
+                        mem = [x for x in T.subterms(body) if x[0] == 'call' and T.call_name(x) == '_matches' and x[2][:1] == (A,) and x[2][1][0] == 'bv' and x[2][1][2] == 1]
+                        body_ok = (body[0] == 'binop' and body[1] == '|' and ((body[2] in acc and body[3] in mem) or (body[3] in acc and body[2] in mem))) or \
+                            (body[0] == 'call' and T.dotted(body[1]) == 'np.logical_or' and len(body[2]) == 2 and set(body[2]) <= set(acc + mem) and acc and mem)
+                        if seed_ok and body_ok:
+                            kinds['iterable'] = True
         else:
             kinds['scalar'] = v == T.mkcmp('==', A, VAL)
     if kinds == {'bool': True, 'iterable': True, 'scalar': True}:
